@@ -120,24 +120,30 @@ def h_sign(kinds, with_chain):
     return h
 
 
-def h_hash(signed):
+def h_hash(signed, remembered=False):
+    """remembered: the group carries an opg_hash / opg_result from an earlier injection (send() and _spawn copy them into derived groups)"""
     from pytezos.operation.group import OperationGroup
+
+    sfx = '[group carrying a remembered opg_hash]' if remembered else ''
 
     def h(e: Engine):
         install(e)
         g, key = mk_group(['transaction'], Tok('chain_id'), Tok('sig') if signed else None)
+        if remembered:
+            g.f['opg_hash'] = Tok('hash_remembered_from_an_earlier_injection')
+            g.f['opg_result'] = {'hash': Tok('hash_remembered_from_an_earlier_injection')}
         try:
             r = e.call(BoundM(OperationGroup.__dict__['hash'], g), [], {})
         except RaiseEx as ex:
-            e.check('OperationGroup.hash::raises.ValueError.only_if(not signed)', z3.BoolVal(not signed and isinstance(ex.exc, ValueError)))
+            e.check(f'OperationGroup.hash{sfx}::raises.ValueError.only_if(not signed)', z3.BoolVal(not signed and isinstance(ex.exc, ValueError)))
             return
-        e.check('OperationGroup.hash::returns.only_if(signed)', z3.BoolVal(signed))
+        e.check(f'OperationGroup.hash{sfx}::returns.only_if(signed)', z3.BoolVal(signed))
         want = "b58(b'o',(('C', 'BLAKE2B_32', (('C', 'HEX', '<forged_hex>'), ('C', 'RAWSIG', '<sig>'))),))"
-        e.check("OperationGroup.hash::ensures.b58('o', blake2b_32(forged ‖ raw signature))", z3.BoolVal(isinstance(r, Tok) and r.name == want))
+        e.check(f"OperationGroup.hash{sfx}::ensures.b58('o', blake2b_32(forged ‖ raw signature))", z3.BoolVal(isinstance(r, Tok) and r.name == want))
         if not (isinstance(r, Tok) and r.name == want):
             e.obl[list(e.obl)[-1]]['reason'] = f'got {getattr(r, "name", r)!r}'
         p = e.call(BoundM(OperationGroup.__dict__['binary_payload'], g), [], {})
-        e.check('OperationGroup.binary_payload::ensures.forged‖raw_signature', z3.BoolVal(norm([p]) == [C('HEX', '<forged_hex>'), C('RAWSIG', '<sig>')]))
+        e.check(f'OperationGroup.binary_payload{sfx}::ensures.forged‖raw_signature', z3.BoolVal(norm([p]) == [C('HEX', '<forged_hex>'), C('RAWSIG', '<sig>')]))
     return h
 
 
@@ -161,8 +167,8 @@ def run_P(ck):
         run_harness(ck, eng, h_sign(kinds, wc), f'sign[{kinds}]')
         report(ck, eng, [])
         functions_interpreted(ck, eng)
-    for s in (True, False):
+    for s, rem in ((True, False), (False, False), (True, True)):
         eng = Engine()
-        run_harness(ck, eng, h_hash(s), f'hash[{s}]')
+        run_harness(ck, eng, h_hash(s, rem), f'hash[{s},{rem}]')
         report(ck, eng, [])
         functions_interpreted(ck, eng)
